@@ -1,6 +1,7 @@
 package main
 
 import (
+	"path/filepath"
 	"bytes"
 	"fmt"
 	"go/ast"
@@ -557,8 +558,13 @@ func (il *inliner) rewriteBody(fd *ast.FuncDecl, sh calleeShape, label string, d
 		body = append(body[:s], append([]byte(e.text), body[t:]...)...)
 	}
 	out := string(body)
-	// falling off the end: run the defers
-	if len(defers) > 0 {
+	// falling off the end: run the defers (not after a final return: nothing falls off there, and
+	// a statement after it would make the enclosing function "miss" its return)
+	endsInReturn := false
+	if n := len(fd.Body.List); n > 0 {
+		_, endsInReturn = fd.Body.List[n-1].(*ast.ReturnStmt)
+	}
+	if len(defers) > 0 && !endsInReturn {
 		out += "\n" + deferText(fd.Body.Rbrace)
 	}
 	return out, usedGoto
@@ -1259,6 +1265,12 @@ func inlinedView(P *Prog) (*Prog, []string) {
 		Q, err := loadProg(P.RepoDir, P.Tags, overlay)
 		if err != nil {
 			notes = append(notes, "inlined view discarded: "+firstLines(err.Error(), 4))
+			if d := os.Getenv("JIVACHECK_VIEWFAIL"); d != "" {
+				os.MkdirAll(d, 0o755)
+				for f, b := range overlay {
+					os.WriteFile(filepath.Join(d, strings.ReplaceAll(strings.TrimPrefix(f, P.RepoDir+"/"), "/", "__")), b, 0o644)
+				}
+			}
 			return last, notes
 		}
 		last, cur = Q, Q
